@@ -169,6 +169,7 @@ def run(ch: Checker) -> None:
                      'input unchanged when no CRLF was found', 3)
     ch.rule('C03.3', 'complementary split points: _process_body takes raw[:missing] and returns raw[missing:] with the same `missing` bounded by Content-Length minus what is held; '
                      'ChunkParser adds piece[:missing] to the held chunk and continues with piece[missing:]', 2)
+    ch.rule('C03.9', 'a call of _process_line / _process_headers that finds no CRLF consumes nothing and records nothing: the path that returns the input unconsumed does not store into the parser (its bytes are delivered again with the next piece)', 2)
     ch.rule('C03.4', 'no unchecked fixed-width skip in the chunk decoder; a chunk is not completed without its CRLF consumed or the shortfall recorded', 1)
     ch.rule('C03.6', 'completion typestate: HttpParser enters COMPLETE only (a) when the chunk decoder is COMPLETE, (b) when len(body) reached Content-Length, (c) from HEADERS_COMPLETE with no input left '
                      'and NO body announced (neither Content-Length > 0 nor chunked), (d) for a bare response line followed by CRLF', 3)
@@ -232,6 +233,8 @@ def run(ch: Checker) -> None:
     ch.check(bad1 is None and n > 0, 'C03.1', parse, 'carry-in + dispatch', 'leftover + new bytes reach the automata; the dispatch loop is evaluated on all %d path(s)' % n,
              bad1[0] if bad1 else 'no path', witness=bad1[1] if bad1 else None)
     ch.check(bad2 is None and n > 0, 'C03.2', parse, 'carry-out', 'final remainder stored on every exit', bad2[0] if bad2 else 'no path', witness=bad2[1] if bad2 else None)
+    n9: Dict[str, int] = {}
+    bad9: Dict[str, Tuple[str, List[str]]] = {}
     for name in ('_process_line', '_process_headers'):
         fn = prog.own_method('HttpParser', name)
         gg = cfg_of(fn, prog, exc_edges=False)
@@ -254,6 +257,16 @@ def run(ch: Checker) -> None:
                     return v is False
                 return False
             if any(_no_crlf(k, v) for k, v in fd.items()):
+                # C03.9: a call that found no terminator consumed nothing -- the same bytes come back with the next piece -- so it must not have recorded anything either
+                rebinds = any(isinstance(t_, ast.Name) and t_.id == rp for i_, st_ in p.stmts() if isinstance(st_, (ast.Assign, ast.AugAssign, ast.AnnAssign))
+                              for tg_ in (st_.targets if isinstance(st_, ast.Assign) else [st_.target]) for t_ in ast.walk(tg_))
+                if not rebinds:
+                    n9[name] = n9.get(name, 0) + 1
+                    for i_, st_ in p.stmts():
+                        for chn, kind, node_ in attr_effects(st_):
+                            if chn.startswith('self.') and (kind in ('store', 'augstore', 'augitem', 'item', 'del', 'delitem') or kind.startswith('call:')):
+                                bad9[name] = ('%s changes %s (%s) on the path that finds no CRLF and returns its input unconsumed: those bytes are handed in again together with the next piece, '
+                                              'so whatever is recorded here is recorded once per delivery, not once per message -- the parser\'s state then depends on how the stream was cut' % (name, chn, norm(st_)[:60]), p.describe())
                 # first loop iteration without CRLF: must return (False, <input unchanged>)
                 sym = Sym(p)
                 last = p.stmts()[-1]
@@ -266,6 +279,8 @@ def run(ch: Checker) -> None:
                     else:
                         badc = ('with no CRLF in the input %s returns (%s, %s) instead of (False, <input unchanged>)' % (name, norm(v0), t1[:50]), p.describe())
         ch.check(okc and badc is None, 'C03.2', fn, 'no terminator', 'input returned unchanged when no CRLF was found', badc[0] if badc else 'no such path found', witness=badc[1] if badc else None)
+        ch.check(name not in bad9 and n9.get(name, 0) > 0, 'C03.9', fn, 'nothing recorded without a terminator', 'the unconsumed-input path changes no parser state (%d path(s))' % n9.get(name, 0),
+                 bad9[name][0] if name in bad9 else 'no unconsumed-input path found', witness=bad9[name][1] if name in bad9 else None)
 
     # ---------------- C03.3 _process_body
     pb = prog.own_method('HttpParser', '_process_body')
@@ -345,6 +360,24 @@ def run(ch: Checker) -> None:
              'both non-final chunk states handled', 'ChunkParser.process does not handle both WAITING_FOR_SIZE and WAITING_FOR_DATA')
 
 
+def _whole_is_crlf(key: str) -> bool:
+    """the fact `<all of the remaining input> == CRLF`: an equality with CRLF whose other side is not a slice / prefix of something longer"""
+    if 'CRLF' not in key and "b'\\r\\n'" not in key:
+        return False
+    try:
+        e = ast.parse(key, mode='eval').body
+    except SyntaxError:
+        return False
+    if not (isinstance(e, ast.Compare) and len(e.ops) == 1 and isinstance(e.ops[0], ast.Eq)):
+        return False
+    sides = [e.left, e.comparators[0]]
+    is_crlf = [isinstance(s, ast.Name) and s.id == 'CRLF' or (isinstance(s, ast.Constant) and s.value == b'\r\n') for s in sides]
+    if sum(is_crlf) != 1:
+        return False
+    other = sides[1] if is_crlf[0] else sides[0]
+    return not any(isinstance(x, ast.Subscript) and isinstance(x.slice, ast.Slice) for x in ast.walk(other))
+
+
 def _length_reached(key: str) -> bool:
     """the fact `len(self.body) == <Content-Length>` (or >=), whichever side each operand is written on"""
     if 'content-length' not in key.lower() or 'len(self.body)' not in key:
@@ -394,7 +427,7 @@ def completion_typestate_check(ch: Checker, rule: str) -> None:
                     why = 'chunk decoder complete'
                 elif any(v is True and _length_reached(k) for k, v in fd.items()):
                     why = 'Content-Length reached'
-                elif f('self.state == httpParserStates.LINE_RCVD') is True and any(v is True and k.replace(' ', '').endswith('==CRLF') for k, v in fd.items()):
+                elif f('self.state == httpParserStates.LINE_RCVD') is True and any(v is True and _whole_is_crlf(k) for k, v in fd.items()):
                     why = 'bare response line'
                 else:
                     no_cl = f('self._content_expected', 'self.content_expected') is False
